@@ -32,16 +32,18 @@ if [ "$suite" = yes ]; then
   if [ -n "$fails" ]; then suite_result="UNEXPECTED-FAILURES: $fails"; else suite_result="ok"; fi
 fi
 echo "== demo with change" >>"$log"
-git stash -q >>"$log" 2>&1   # put the change aside to apply the demo on the clean tree first
+git add -A >>"$log" 2>&1; git -c user.email=v@v -c user.name=v commit -q -m change >>"$log" 2>&1
 if ! apply "$demo"; then echo "$name: DEMO-DOES-NOT-APPLY suite=$suite_result" | tee -a "$log"; exit 5; fi
 git add -A >>"$log" 2>&1
-tests=$(git diff --cached -U0 | grep -E "^\+\s*(async )?fn [a-zA-Z0-9_]+\(\)" | sed -E 's/.*fn ([a-zA-Z0-9_]+)\(\).*/\1/' | sort -u | tr '\n' ' ')
+tests=$(git diff --cached -U0 | grep -E "^\+\s*(pub )?(async )?fn [a-zA-Z0-9_]+\(\)" | sed -E 's/.*fn ([a-zA-Z0-9_]+)\(\).*/\1/' | sort -u | tr '\n' ' ')
 filter=""; for t in $tests; do [ -n "$filter" ] && filter="$filter or "; filter="${filter}test(/(^|::)$t\$/)"; done
 echo "demo tests: $tests" >>"$log"
 [ -z "$filter" ] && { echo "$name: NO-DEMO-TESTS-FOUND suite=$suite_result" | tee -a "$log"; exit 5; }
-timeout 900 cargo nextest run --workspace --no-fail-fast --offline -E "$filter" > "$out/demo_clean.log" 2>&1; clean_code=$?
-git stash pop -q >>"$log" 2>&1 || { echo "$name: STASH-POP-CONFLICT suite=$suite_result" | tee -a "$log"; exit 5; }
+git -c user.email=v@v -c user.name=v commit -q -m demo >>"$log" 2>&1
 timeout 900 cargo nextest run --workspace --no-fail-fast --offline -E "$filter" > "$out/demo_changed.log" 2>&1; changed_code=$?
+# now take the change out again (revert the first commit), keep the demo
+if ! git -c user.email=v@v -c user.name=v revert --no-edit HEAD~1 >>"$log" 2>&1; then echo "$name: REVERT-CONFLICT suite=$suite_result demo_changed=$changed_code" | tee -a "$log"; exit 5; fi
+timeout 900 cargo nextest run --workspace --no-fail-fast --offline -E "$filter" > "$out/demo_clean.log" 2>&1; clean_code=$?
 echo "demo clean exit=$clean_code changed exit=$changed_code" >>"$log"
 verdict="BAD"
 if [ $clean_code -eq 0 ] && [ $changed_code -ne 0 ] && [ "$suite_result" != "${suite_result#ok}" -o "$suite_result" = skipped ]; then verdict="CONFIRMED"; fi
